@@ -269,6 +269,25 @@ impl AnyDec {
         }
     }
 
+    /// `Decoder::decode_into`: all items available in the reader
+    fn decode_into<B: std::io::BufRead>(&mut self, cur: &mut B, out: &mut Vec<Out>) -> Result<(), String> {
+        match self {
+            AnyDec::Event(d) => {
+                let mut v = vec![];
+                let r = d.decode_into(&mut *cur, &mut v).map(|_| ()).map_err(|e| format!("{e:?}"));
+                out.extend(v.into_iter().map(Out::Event));
+                r
+            }
+            AnyDec::Command(d) => {
+                let mut v = vec![];
+                let r = d.decode_into(&mut *cur, &mut v).map(|_| ()).map_err(|e| format!("{e:?}"));
+                out.extend(v.into_iter().map(Out::Command));
+                r
+            }
+            AnyDec::Utf8(_) => Ok(()),
+        }
+    }
+
     fn snapshot(&self) -> Option<Snapshot> {
         match self {
             AnyDec::Event(d) => Some(d.verif_snapshot()),
@@ -351,6 +370,32 @@ pub fn run_parts_one_reader(which: Which, w: &[u8], parts: &[usize]) -> Run {
                 problems.push(format!("decode returned error {e}"));
                 break;
             }
+        }
+    }
+    Run { items, snapshot: dec.snapshot(), problems }
+}
+
+/// Like `run_parts`, but every read is handled with ONE `decode` call followed by `decode_into` for whatever is
+/// left of it (the two entry points of the `Decoder` trait used in turn on one decoder).
+pub fn run_parts_mixed_api(which: Which, w: &[u8], parts: &[usize]) -> Run {
+    let mut dec = AnyDec::new(which);
+    let mut items = Vec::new();
+    let mut problems = Vec::new();
+    let mut off = 0;
+    for p in parts {
+        let chunk = &w[off..off + p];
+        off += p;
+        let mut cur = Cursor::new(chunk);
+        match dec.decode(&mut cur) {
+            Ok(Some(o)) => items.push(o),
+            Ok(None) => {}
+            Err(e) => problems.push(format!("decode returned error {e}")),
+        }
+        if let Err(e) = dec.decode_into(&mut cur, &mut items) {
+            problems.push(format!("decode_into returned error {e}"));
+        }
+        if cur.position() as usize != chunk.len() {
+            problems.push(format!("decode_into returned with {} of {} bytes of the read unconsumed", chunk.len() - cur.position() as usize, chunk.len()));
         }
     }
     Run { items, snapshot: dec.snapshot(), problems }
@@ -568,6 +613,24 @@ pub fn check_string(
                         detail: format!(
                             "reads {:?} end in {:?} but reads {:?} end in {:?}",
                             partitions[0], f.snapshot, parts, run.snapshot
+                        ),
+                    });
+                }
+            }
+        }
+        // `decode` once, then `decode_into`, on every read (the whole input; single cuts for inputs of up to 6 bytes)
+        if (parts.len() == 1 || (parts.len() == 2 && w.len() <= 6)) && which != Which::Utf8 {
+            let mixed = catch(|| run_parts_mixed_api(which, w, parts))?;
+            for p in &mixed.problems {
+                out.push(Problem { kind: format!("totality:mixed-api:{}", squash(p)), detail: format!("{p} (decode then decode_into, reads {:?})", parts) });
+            }
+            if let Some(f) = &first {
+                if f.items != mixed.items {
+                    out.push(Problem {
+                        kind: "chunking:events-differ:decode-then-decode_into".into(),
+                        detail: format!(
+                            "decode alone gives {:?} but decode followed by decode_into on each of the reads {:?} gives {:?}",
+                            f.items, parts, mixed.items
                         ),
                     });
                 }
